@@ -21,7 +21,9 @@ typedef struct {
   char tags[512];
   int open;
 } hx_ctx_t;
-extern hx_ctx_t HX;
+extern __thread hx_ctx_t HX; /* per thread: monitors may run library calls in several threads */
+extern __thread char *HX_FAILBUF; /* when set, hx_fail appends 'key\tmsg\n' here instead of printing */
+extern __thread size_t HX_FAILCAP;
 void hx_reset(long idx); /* start of a case: clears class/tags/fail count */
 void hx_begin(long idx, const char *keyprefix, const char *fmt, ...); /* printed just before the library is entered */
 void hx_fail(const char *key, const char *fmt, ...);
